@@ -274,6 +274,14 @@ def micro_scenarios():
         "sims": [dict(_sim("A", "time-based", steps=[1]), n_ent=2), dict(_sim("B", "hybrid", steps=[1], emit=[0]), n_ent=2)],
         "conns": [_c("A", "po", "B", "mi"), dict(_c("A", "po", "B", "ti", shift=2), se=1, de=1)],
         "until": 6}
+    # a grouped simulator gets the sub-step (5,1) scheduled (weak, future output time) and - depending on the
+    # schedule before or after it - the earlier sub-step (5,0) of the same time
+    out["substep_then_earlier_substep"] = {
+        "tree": [["A", "B", "C"]],
+        "sims": [_sim("A", "event-based", emit=[0]), _sim("B", "event-based", emit=[1], future=[5]),
+                 _sim("C", "event-based", emit=[1], future=[5])],
+        "conns": [_c("B", "eo", "A", "ti", weak=True), _c("C", "eo", "A", "ti")],
+        "initial_events": {"B": 0, "C": 0}, "until": 7}
     for s in out.values():
         s.setdefault("initial_events", {})
         s.setdefault("world", {"cache": True})
